@@ -27,7 +27,7 @@ RULE = (
     "user-supplied custom dependency context on the broker in half of the cases; in half of the cases one node is "
     "replaced through broker.dependency_overrides by another generated dependency; in half of the cases the task also takes "
     "an annotated argument (a pydantic model accepting the scalar short form '1,2', the same wire value in every message), mutates it and reads it "
-    "back after its suspension; in a third of the cases the task itself does not take the Context (only its dependencies do) while other messages go to a second task that does; in a third of the cases the messages carry no labels at all and the first execution writes one in place (Context.requeue). Oracle: every echo made while "
+    "back after its suspension; in a third of the cases the task itself does not take the Context (only its dependencies do) while other messages go to a second task that does; in a third of the cases the first two messages carry the same task id; in a third of the cases the messages carry no labels at all and the first execution writes one in place (Context.requeue). Oracle: every echo made while "
     "processing message i (attributed through a context variable set when its callback starts, inherited by every task it spawns) shows message i's id, argument "
     "and label; the result stored under id i is the value execution i returned. Non-trivial: >=2 executions overlap in "
     "virtual time and some Context-reading node is un-cached or below an un-cached node; distinct = canonical JSON."
@@ -63,6 +63,9 @@ def cases() -> Any:
         # messages without any label, and the first execution writes a label of its own in place (Context.requeue):
         # the others must keep seeing their own (empty) labels
         "no_labels": st.sampled_from([False, False, True]),
+        # the first two messages carry the SAME task id (a redelivery / a re-kick with with_task_id): still two executions,
+        # each with the Context of its own message
+        "same_id": st.sampled_from([False, False, True]),
         "requeue_first": st.sampled_from([False, True]),
     }).map(_sanitize))
 
@@ -121,6 +124,9 @@ def run_case(c: Dict[str, Any]) -> Outcome:
 
     res: Dict[str, Any] = {}
 
+    def tid_of(k: int) -> str:
+        return "id0" if c.get("same_id") and k == 1 else f"id{k}"
+
     async def main() -> None:
         tr = wh.Trace(loop)
         b = wh.ScriptedBroker(tr)
@@ -143,7 +149,7 @@ def run_case(c: Dict[str, Any]) -> Outcome:
             plain = bool((c.get("to_plain") or [False] * 4)[k % 4]) and k > 0 and len(msgs) > 1 and c.get("no_task_ctx")
             kw = {"box": "1,2"} if c.get("box") and not plain else {}     # the same wire value in every message
             own_labels = {} if c.get("no_labels") else {"who": f"w{k}"}
-            m = b.formatter.dumps(AsyncKicker("plain" if plain else "t", b, own_labels).with_task_id(f"id{k}")._prepare_message(k, slp, **kw)).message
+            m = b.formatter.dumps(AsyncKicker("plain" if plain else "t", b, own_labels).with_task_id(tid_of(k))._prepare_message(k, slp, **kw)).message
             spans[k] = [loop.time(), None]
             await r.callback(m)
             spans[k][1] = loop.time()
@@ -174,8 +180,8 @@ def run_case(c: Dict[str, Any]) -> Outcome:
         for (node_, t, tid, a0, who) in ev:
             if k is None:
                 out.add("C06.a", f"node {node_} ran outside any message's callback task")
-            elif (tid, a0, who) != (f"id{k}", k, None if c.get("no_labels") else f"w{k}"):
-                out.add("C06.a", f"while processing message id{k} (arg {k}, label w{k}) at t={t}, node {node_} observed Context of "
+            elif (tid, a0, who) != (tid_of(k), k, None if c.get("no_labels") else f"w{k}"):
+                out.add("C06.a", f"while processing message #{k} (task id {tid_of(k)}, arg {k}, label w{k}) at t={t}, node {node_} observed Context of "
                                  f"message {tid!r} (arg {a0!r}, label {who!r})")
     for k, seen_boxes in sorted(boxes.items(), key=lambda kv: str(kv[0])):
         for bx in seen_boxes:
@@ -190,14 +196,18 @@ def run_case(c: Dict[str, Any]) -> Outcome:
     stored: Dict[str, List[Any]] = {}
     for tid, is_err, rv, en in res.get("results", []):
         stored.setdefault(tid, []).append((is_err, rv, en))
+    want_by_id: Dict[str, List[int]] = {}
     for k in range(len(msgs)):
-        got = stored.get(f"id{k}", [])
         if k == 0 and c.get("requeue_first") and c.get("no_labels") and not c.get("no_task_ctx"):
+            want_by_id.setdefault(tid_of(k), [])
             continue      # the requeueing execution signals no-result
-        if len(got) != 1:
-            out.add("C06.b", f"{len(got)} results stored under id{k}")
-        elif got[0][0] or got[0][1] != k:
-            out.add("C06.b", f"result stored under id{k} is {got[0]} - expected the value {k} returned by its own execution")
+        want_by_id.setdefault(tid_of(k), []).append(k)
+    for tid, want_vals in sorted(want_by_id.items()):
+        got = stored.get(tid, [])
+        if len(got) != len(want_vals):
+            out.add("C06.b", f"{len(got)} results stored under {tid}, {len(want_vals)} executions carried that id")
+        elif any(g[0] for g in got) or sorted(g[1] for g in got) != sorted(want_vals):
+            out.add("C06.b", f"results stored under {tid} are {got} - expected the value(s) {want_vals} returned by the execution(s) of the message(s) carrying that id")
     iv = sorted((s, e if e is not None else s) for s, e in spans.values())
     overlap = any(b_[0] < a_[1] for a_, b_ in zip(iv, iv[1:]))
     reach = dg.reachable(nodes, tdeps)
@@ -207,7 +217,7 @@ def run_case(c: Dict[str, Any]) -> Outcome:
             if not uc and (nodes[j]["ctx"] or any(nodes[d]["ctx"] for d in dg.descendants(nodes, j))):
                 risky = True
     out.nontrivial = bool(overlap and risky)
-    out.classes = [c_ for c_, f in (("overlap", overlap), ("uncached_ctx_reader", risky), ("custom_ctx", c.get("custom_ctx")), ("dependency_overrides", bool(c.get("overrides"))), ("context_only_via_dependencies", bool(c.get("no_task_ctx"))), ("label_less_messages", bool(c.get("no_labels"))),
+    out.classes = [c_ for c_, f in (("overlap", overlap), ("uncached_ctx_reader", risky), ("custom_ctx", c.get("custom_ctx")), ("dependency_overrides", bool(c.get("overrides"))), ("context_only_via_dependencies", bool(c.get("no_task_ctx"))), ("label_less_messages", bool(c.get("no_labels"))), ("two_messages_same_task_id", bool(c.get("same_id"))),
                                     ("generator_style", any(nodes[i]["style"] in dg.YIELDING for i in reach))) if f]
     out.trace = {"echoes": {str(k): [list(e[:3]) for e in v[:6]] for k, v in echoes.items()}, "spans": {str(k): v for k, v in spans.items()}}
     return out
